@@ -263,11 +263,16 @@ class HostModel:
         if msg is False:
             msg = wire.try_decode(data)
         if msg is not None and not msg.is_response:
-            if msg.tc:
-                return False
-            k = self._querier(sock_label, src)
-            if k is not None and k in self.held and t_ms - self.held[k] <= 500.0 + 1e-3:
-                return False
+            g = self.guards.g.get(sock_label)
+            other_source = g is None or g.src is None or src is None or g.src != _src_key(src)
+            if other_source:
+                # (a copy from the very source of the previous datagram stays a duplicate: what was held for it may
+                # have been answered already)
+                if msg.tc:
+                    return False
+                k = self._querier(sock_label, src)
+                if k is not None and k in self.held and t_ms - self.held[k] <= 500.0 + 1e-3:
+                    return False
         return not self.guards.check(sock_label, data, t_ms, src)
 
     def on_rx(self, t_s, sock_label, data, v6sock=False, src=None):
